@@ -23,7 +23,10 @@ from harness.lib import common
 
 PROP = 'C20'
 PROP_FILE = 'Props/C20.v'
-THEOREMS = ['C20_matcher_meets_spec', 'C20_missing_allows', 'C20_whole_file', 'C20_nofollow']
+THEOREMS = ['C20_gate', 'C20_once_per_origin', 'C20_stored_once', 'C20_one_acquisition_at_a_time',
+            'C20_robots_request_in_acquisition', 'C20_5xx_postpones', 'C20_never_obtained_never_requested',
+            'C20_5xx_retry_budget', 'C20_missing_allows', 'C20_matcher_meets_spec', 'C20_whole_file', 'C20_nofollow',
+            'C20_replay_sound']
 TRUSTED = [
     'hand-written model Model/Robots.v of robotexclusionrulesparser.parse/is_allowed, RobotsTxtPool, RobotsTxtChecker, '
     'the WebSession redirect loop, _process_robots/_process_loop and the scraper nofollow step; tied by this run\'s correspondence',
@@ -37,8 +40,12 @@ ASSUMPTIONS = [
     'user agent and robots.txt text are latin-1 (robots.txt bodies are decoded as ISO-8859-1 by the parser; str.lower is modelled for code points < 256)',
     'plugin hooks (accept_url) are disconnected',
     'the URL handed to the parser is URLInfo.url of an http/https URL',
-    'redirect hops of an item are outside C20_gate (known finding redirect-hop-not-robots-checked); requests of the robots.txt session itself (robots.txt and its redirect targets) are acquisition requests',
-    'concurrent first visits of an origin may each fetch robots.txt (C20_concurrent_window); no fetch BEGINS after rules are stored',
+    'requests of the robots.txt session itself (robots.txt and the targets of redirects it answers with) are acquisition requests: they are '
+    'not themselves robots-checked and are counted under the origin being acquired',
+    'asyncio.Lock is modelled as "any waiter may take a free lock" (a superset of its FIFO hand-over); a step of the LTS is the code between two '
+    'suspension points; cancellation of a worker is not modelled',
+    'URL table semantics behind C20_5xx_retry_budget (error items are picked again while TriesFilter passes) are C14/C18 matter; here they are a '
+    'small model checked against the rows of the end-to-end crawls',
 ]
 
 UA_DEFAULT = 'Wpull/2.0.3 (gzip)'
@@ -294,6 +301,24 @@ Definition acq_eqb (a : nat * acq_outcome) (n : nat) (kind : N) (rs : list rules
 Definition lctx_eqb (a b : lctx) := seqb (lc_link a) (lc_link b) && Bool.eqb (lc_inline a) (lc_inline b) && Bool.eqb (lc_linked a) (lc_linked b).
 Definition mkl (l : str) (i k : bool) := {| lc_link := l; lc_inline := i; lc_linked := k |}.
 Definition mke (t n c : str) := {| e_tag := t; e_name := n; e_content := c |}.
+Definition mkuo (o : origin) (t : str) := {| u_origin := o; u_text := t |}.
+Definition url_eqb (a b : url) := origin_eqb (u_origin a) (u_origin b) && seqb (u_text a) (u_text b).
+Definition ev_eqb (a b : event) : bool :=
+  match a, b with
+  | EvFetchStart w o, EvFetchStart w' o' => Nat.eqb w w' && origin_eqb o o'
+  | EvRobotsReq w o t, EvRobotsReq w' o' t' => Nat.eqb w w' && origin_eqb o o' && origin_eqb (u_origin t) (u_origin t')
+  | EvStored w o r, EvStored w' o' r' => Nat.eqb w w' && origin_eqb o o' && leqb rs_eqb r r'
+  | EvPostponed w u, EvPostponed w' u' => Nat.eqb w w' && url_eqb u u'
+  | EvSkipped w u, EvSkipped w' u' => Nat.eqb w w' && url_eqb u u'
+  | EvReq w u c h, EvReq w' u' c' h' => Nat.eqb w w' && url_eqb u u' && url_eqb c c' && Bool.eqb h h'
+  | _, _ => false
+  end.
+(* the observed run is accepted by the LTS step function and produces exactly the observed events *)
+Definition run_eqb (cfg : config) (ls : list label) (expected : list event) : bool :=
+  match run_labels cfg g_init ls with
+  | Some s => leqb ev_eqb (rev (g_trace s)) expected
+  | None => false
+  end.
 '''
 
 
@@ -595,25 +620,28 @@ def scraper_property(case, res):
     return None
 
 
-def tie_units(r, n_pool, n_checker, n_scraper, stats):
+def tie_units(r, n_pool, n_checker, n_scraper, n_conc, stats):
     pc, cc, sc = gen_pool_cases(r, n_pool), gen_checker_cases(r, n_checker), gen_scraper_cases(r, n_scraper)
-    with ThreadPoolExecutor(max_workers=3) as ex:
+    kc = gen_conc_cases(r, n_conc)
+    with ThreadPoolExecutor(max_workers=4) as ex:
         f1 = ex.submit(impl, 'pool', pc)
         f2 = ex.submit(impl, 'checker', cc, 60)
         f3 = ex.submit(impl, 'scraper', sc, 60)
-        pr, cr, sr = f1.result(), f2.result(), f3.result()
+        f4 = ex.submit(impl, 'conc', kc, 60)
+        pr, cr, sr, kr = f1.result(), f2.result(), f3.result(), f4.result()
     items = [coq_pool_case(c, x) for c, x in zip(pc, pr)] + [coq_checker_case(c, x) for c, x in zip(cc, cr)] + \
-            [coq_scraper_case(c, x) for c, x in zip(sc, sr)]
-    failing, errors = eval_checks(items, per=80)
+            [coq_scraper_case(c, x) for c, x in zip(sc, sr)] + [coq_conc_case(c, x) for c, x in zip(kc, kr)]
+    failing, errors = eval_checks(items, per=60)
     dis = list(errors)
-    allc = [('pool', c, x) for c, x in zip(pc, pr)] + [('checker', c, x) for c, x in zip(cc, cr)] + [('scraper', c, x) for c, x in zip(sc, sr)]
+    allc = [('pool', c, x) for c, x in zip(pc, pr)] + [('checker', c, x) for c, x in zip(cc, cr)] + \
+           [('scraper', c, x) for c, x in zip(sc, sr)] + [('conc', c, x) for c, x in zip(kc, kr)]
     for idx in sorted(failing):
         kind, c, x = allc[idx]
         dis.append({'tie': kind, 'case': c, 'impl': x})
     viol = []
     nontriv = set()
     for kind, c, x in allc:
-        why = {'pool': pool_property, 'checker': checker_property, 'scraper': scraper_property}[kind](c, x)
+        why = {'pool': pool_property, 'checker': checker_property, 'scraper': scraper_property, 'conc': conc_property}[kind](c, x)
         if why:
             viol.append({'why': why, 'case': dict(c, kind=kind), 'impl': x})
         stats[kind] = stats.get(kind, 0) + 1
@@ -625,7 +653,210 @@ def tie_units(r, n_pool, n_checker, n_scraper, stats):
             nontriv.add(c['html'])
         elif kind == 'pool' and any('can' in o and o['can'] is False for o in x['ops']):
             nontriv.add(json.dumps(c, sort_keys=True))
+        elif kind == 'conc':
+            # a task called can_fetch for an origin while another task's acquisition of it was in progress
+            inflight, waited = {}, False
+            for e in x.get('log', []):
+                if e[0] == 'fetchstart':
+                    inflight[e[1]] = tuple(e[2])
+                elif e[0] in ('verdict', 'error'):
+                    inflight.pop(e[1], None)
+                elif e[0] == 'call' and tuple(e[3]) in inflight.values():
+                    waited = True
+            stats['conc:waited-for-lock'] = stats.get('conc:waited-for-lock', 0) + (1 if waited else 0)
+            if waited:
+                nontriv.add(json.dumps(c, sort_keys=True))
     return len(allc), nontriv, dis, viol
+
+
+# ==========================================================================
+# tie (a''): several tasks on one RobotsTxtChecker vs the gate LTS (run_labels)
+# ==========================================================================
+CONC_ORIGINS = [('http://h1', ['http', 'h1', 80]), ('http://h2', ['http', 'h2', 80]), ('http://h1:8080', ['http', 'h1', 8080]),
+                ('https://h1', ['https', 'h1', 443])]
+CONC_PATHS = ['/', '/a', '/secret/x', '/private/a', '/x.php', '/secret']
+CONC_BODIES = ROBOTS_BODIES[:5] + [ROBOTS_BODIES[6]]
+
+
+def gen_conc_cases(r, n):
+    cases = []
+    for ci in range(n):
+        origins = r.sample(CONC_ORIGINS, r.randrange(1, 4))
+        script = {}
+        kinds = {}
+        mr = r.choice([20, 20, 3])
+
+        def t(d):
+            d = dict(d)
+            d['pre'] = r.choice([0, 0, 1, 2, 3])
+            d['yields'] = r.choice([0, 1, 2, 3, 5])
+            return d
+        for base, key in origins:
+            kind = r.choice(['rules', 'rules', 'rules', '404', '5xx-then-200', '5xx', 'redirect', 'redirect-x', 'protocol',
+                             'network-then-200', 'loop'])
+            kinds[base] = kind
+            body = r.choice(CONC_BODIES).encode().hex()
+            ok = {'status': 200, 'body_hex': body}
+            u = base + '/robots.txt'
+            if kind == 'rules':
+                script[u] = [t(ok)]
+            elif kind == '404':
+                script[u] = [t({'status': r.choice([404, 403, 410, 204]), 'body_hex': body})]
+            elif kind == '5xx-then-200':
+                script[u] = [t({'status': r.choice([500, 503, 599])}), t(ok)]
+            elif kind == '5xx':
+                script[u] = [t({'status': 502, 'body_hex': body})]
+            elif kind == 'redirect':
+                script[u] = [t({'status': r.choice([301, 302, 307]), 'location': '/rb2.txt'})]
+                script[base + '/rb2.txt'] = [t(ok)]
+            elif kind == 'redirect-x':
+                script[u] = [t({'status': 302, 'location': 'http://hx/rb-%d.txt' % len(script)})]
+                script['http://hx/rb-%d.txt' % (len(script) - 1)] = [t(ok)]
+            elif kind == 'protocol':
+                script[u] = [t({'error': 'protocol'})]
+            elif kind == 'network-then-200':
+                script[u] = [t({'error': 'network'}), t(ok)]
+            else:
+                script[u] = [t({'status': 302, 'location': '/robots.txt'})]
+        tasks = []
+        for _ in range(r.randrange(2, 5)):
+            visits = []
+            for _ in range(r.randrange(1, 4)):
+                v = [r.choice(origins)[0] + r.choice(CONC_PATHS)]
+                while r.randrange(10) < 3 and len(v) < 3:
+                    v.append(r.choice(origins)[0] + r.choice(CONC_PATHS))
+                visits.append(v)
+            tasks.append({'delay': r.choice([0, 0, 1, 2, 4]), 'gap': r.choice([0, 1, 2]), 'visits': visits})
+        cases.append({'ua': r.choice([UA_DEFAULT, 'other']).encode().hex(), 'max_redirects': mr, 'script': script, 'tasks': tasks,
+                      'kinds': kinds})
+    return cases
+
+
+def _loc_key(loc, cur_key):
+    if loc.startswith('http'):
+        m = re.match(r'(https?)://([^/:]+)(?::(\d+))?', loc)
+        return [m.group(1), m.group(2), int(m.group(3)) if m.group(3) else (443 if m.group(1) == 'https' else 80)]
+    return cur_key
+
+
+def conc_labels(case, res):
+    """observed event log -> (labels for run_labels, expected model events oldest first)"""
+    stored = set()
+    waiting, acq, item, cur, hop, pending, last_req = {}, {}, {}, {}, {}, {}, {}
+    labels, exp = [], []
+    for e in res['log']:
+        k, t = e[0], e[1]
+        if k == 'call':
+            _, t, url6, key, is_hop = e
+            u = 'mkuo %s (unhex6 "%s")' % (coq_origin(key), url6)
+            if pending.get(t):
+                labels.append('LFetchResp %d (%s)' % (t, 'FRRedirect (%s)' % u if is_hop else 'FRDone'))
+                pending[t] = False
+            if not is_hop:
+                labels.append('LPick %d (%s)' % (t, u))
+                item[t] = u
+            cur[t], hop[t] = u, is_hop
+            labels.append('LCheck %d true' % t)
+            waiting[t] = tuple(key) not in stored
+        elif k == 'fetchstart':
+            labels.append('LLock %d' % t)
+            waiting[t] = False
+            acq[t] = e[2]
+            exp.append('EvFetchStart %d %s' % (t, coq_origin(e[2])))
+        elif k == 'req':
+            labels.append('LRobotsSend %d' % t)
+            last_req[t] = e[3]
+            exp.append('EvRobotsReq %d %s (mkuo %s [])' % (t, coq_origin(acq.get(t, e[3])), coq_origin(e[3])))
+        elif k == 'resp':
+            x = e[2]
+            if x.get('error') == 'protocol':
+                rs = 'RespProtocolError'
+            elif x.get('error') == 'network':
+                rs = 'RespNetworkError'
+            else:
+                loc = x.get('location')
+                has = loc not in (None, '')
+                rs = 'Resp %d %s %s (unhex "%s")' % (x['status'], cb(has),
+                                                     '(Some (mkuo %s []))' % coq_origin(_loc_key(loc, last_req[t])) if has else 'None',
+                                                     x.get('body_hex', ''))
+            labels.append('LRobotsResp %d (%s)' % (t, rs))
+        elif k == 'stored':
+            stored.add(tuple(e[2]))
+            exp.append('EvStored %d %s %s' % (t, coq_origin(e[2]), coq_rulesets(e[3])))
+        elif k == 'verdict':
+            if waiting.get(t):
+                labels.append('LLock %d' % t)
+                waiting[t] = False
+            if e[2]:
+                labels.append('LFetchSend %d' % t)
+                exp.append('EvReq %d (%s) (%s) %s' % (t, item[t], cur[t], cb(hop[t])))
+                pending[t] = True
+            else:
+                exp.append('EvSkipped %d (%s)' % (t, item[t]))
+        elif k == 'error':
+            exp.append('EvPostponed %d (%s)' % (t, item[t]))
+    return labels, exp
+
+
+def coq_conc_case(case, res):
+    if res.get('crash'):
+        return 'false'
+    labels, exp = conc_labels(case, res)
+    cfg = '{| c_robots := true; c_ua := unhex "%s"; c_max_redirects := %d; c_workers := %d |}' % (
+        case['ua'], case['max_redirects'], len(case['tasks']))
+    return 'run_eqb %s [%s] [%s]' % (cfg, '; '.join(labels), '; '.join(exp))
+
+
+def conc_property(case, res):
+    """the property on the observed log (no model involved)"""
+    if res.get('crash'):
+        return 'checker-crash-or-deadlock'
+    stored = {}
+    open_acq = {}           # task -> origin key
+    last_resp = {}
+    called = {}
+    ua = bytes.fromhex(case['ua']).decode('latin-1')
+    for e in res['log']:
+        k, t = e[0], e[1]
+        if k == 'call':
+            called[t] = (''.join(chr(int(e[2][i:i + 6], 16)) for i in range(0, len(e[2]), 6)), tuple(e[3]))
+        elif k == 'fetchstart':
+            o = tuple(e[2])
+            if o in stored:
+                return 'robots-refetched'
+            if o in open_acq.values():
+                return 'robots-fetched-concurrently'
+            open_acq[t] = o
+        elif k == 'req':
+            if open_acq.get(t) in stored:
+                return 'robots-refetched'
+        elif k == 'resp':
+            last_resp[t] = e[2]
+        elif k == 'stored':
+            o = tuple(e[2])
+            if o in stored:
+                return 'robots-stored-twice'
+            x = last_resp.get(t, {})
+            stored[o] = bytes.fromhex(x.get('body_hex', '')).decode('latin-1') if x.get('status') == 200 else ''
+            st = x.get('status')
+            if st is not None and 500 <= st <= 599:
+                return '5xx-not-postponed'
+            open_acq.pop(t, None)
+        elif k == 'verdict':
+            open_acq.pop(t, None)
+            url, o = called[t]
+            if o not in stored:
+                return 'requested-before-robots-obtained' if e[2] else None
+            target = re.sub(r'^https?://[^/]*', '', url)
+            if ref_allowed(stored[o], ua, target) != e[2]:
+                return 'disallowed-url-requested' if e[2] else 'missing-robots-not-allowing' if stored[o] == '' else 'verdict-differs-from-reference'
+        elif k == 'error':
+            open_acq.pop(t, None)
+            x = last_resp.get(t, {})
+            st = x.get('status')
+            if not (x.get('error') == 'network' or (st is not None and 500 <= st <= 599)):
+                return 'postponed-without-server-error'
+    return None
 
 
 # ==========================================================================
@@ -657,32 +888,36 @@ def gen_e2e_robots(r):
 
 def gen_site(r, idx):
     """-> spec dict for crawl.run_crawl plus 'meta' used by the predicate"""
+    from harness.fakes import crawl
     hosts = HOSTS[:r.choice([1, 2, 2, 3])]
     conc = r.choice([1, 1, 2, 3, 4])
     ua = r.choice(E2E_UAS)
+    tries = r.choice([1, 1, 2])
     site = {}
-    meta = {'hosts': {}, 'concurrency': conc, 'ua': ua or UA_DEFAULT, 'idx': idx}
+    meta = {'hosts': {}, 'concurrency': conc, 'ua': ua or UA_DEFAULT, 'idx': idx, 'tries': tries}
     for h in hosts:
         pages = {}
         kind = r.choice(['rules', 'rules', 'rules', 'rules', '404', '403', '204', '503', '500', 'redirect', 'redirect-x', 'loop', '200-empty'])
         body = None
         chain = ['/robots.txt']
+        # with several workers the answer to robots.txt takes a while, so that other workers reach the same origin meanwhile
+        slow = {'delay': r.choice([0.05, 0.1, 0.2])} if conc > 1 and r.randrange(3) else {}
         if kind in ('rules', 'redirect', 'redirect-x'):
             body = gen_e2e_robots(r)
         if kind == 'rules':
-            pages['/robots.txt'] = {'body': body, 'ctype': 'text/plain'}
+            pages['/robots.txt'] = dict({'body': body, 'ctype': 'text/plain'}, **slow)
         elif kind == '200-empty':
             body = ''
-            pages['/robots.txt'] = {'body': '', 'ctype': 'text/plain'}
+            pages['/robots.txt'] = dict({'body': '', 'ctype': 'text/plain'}, **slow)
         elif kind in ('404', '403', '204', '503', '500'):
-            pages['/robots.txt'] = {'status': int(kind), 'body': '' if kind == '204' else 'User-agent: *\nDisallow: /\n', 'ctype': 'text/plain'}
+            pages['/robots.txt'] = dict({'status': int(kind), 'body': '' if kind == '204' else 'User-agent: *\nDisallow: /\n', 'ctype': 'text/plain'}, **slow)
         elif kind == 'redirect':
             pages['/robots.txt'] = {'status': r.choice([301, 302, 307]), 'location': '/rb-moved.txt', 'body': ''}
-            pages['/rb-moved.txt'] = {'body': body, 'ctype': 'text/plain'}
+            pages['/rb-moved.txt'] = dict({'body': body, 'ctype': 'text/plain'}, **slow)
             chain = ['/robots.txt', '/rb-moved.txt']
         elif kind == 'redirect-x':
             pages['/robots.txt'] = {'status': 302, 'location': 'http://hx:{PORT}/rb-%s.txt' % h, 'body': ''}
-            site.setdefault('hx', {})['/rb-%s.txt' % h] = {'body': body, 'ctype': 'text/plain'}
+            site.setdefault('hx', {})['/rb-%s.txt' % h] = dict({'body': body, 'ctype': 'text/plain'}, **slow)
             chain = ['/robots.txt', ('hx', '/rb-%s.txt' % h)]
         elif kind == 'loop':
             pages['/robots.txt'] = {'status': 302, 'location': '/robots.txt', 'body': ''}
@@ -692,6 +927,8 @@ def gen_site(r, idx):
     # content pages
     for h in hosts:
         paths = ['/'] + r.sample(PAGE_PATHS[1:], r.randrange(3, 9))
+        cookie = {'headers': {'Set-Cookie': 'sid=%s%d; Path=/' % (h, idx)}} if r.randrange(3) == 0 else {}
+        nredir = 0
         for p in paths:
             if p.endswith(('.png', '.gif')):
                 site[h][p] = {'body': 'img', 'ctype': 'image/png'}
@@ -702,64 +939,98 @@ def gen_site(r, idx):
                 t = r.choice(paths + PAGE_PATHS[:6])
                 th = r.choice(hosts) if r.randrange(4) == 0 else h
                 (inline if t.endswith(('.png', '.gif')) else links).append((th, t))
+            # redirecting URLs: the page links to /go<k>, which answers 30x with a Location that robots.txt may disallow
+            # (same host or another one); the targets are ordinary leaf pages
+            while r.randrange(3) == 0 and nredir < 4:
+                th = r.choice(hosts) if r.randrange(3) == 0 else h
+                cands = ['/secret/t%d' % nredir, '/private/t%d.html' % nredir, '/pub/t%d' % nredir, '/t%d.php' % nredir, '/open/t%d' % nredir,
+                         '/a/t%d' % nredir, '/d1/t%d' % nredir, '/img/t%d.png' % nredir]
+                # prefer a target the destination's robots.txt disallows (that is the interesting hop)
+                bad = [c for c in cands if not ref_allowed(robots_text(meta['hosts'][th]), ua or UA_DEFAULT, c)]
+                tp = r.choice(bad) if bad and r.randrange(3) else r.choice(cands)
+                g = '/go%d-%d' % (len(meta['hosts'][h]['pages']), nredir)
+                nredir += 1
+                site[h][g] = dict({'status': r.choice([301, 302, 303, 307, 308]), 'location': tp if th == h else 'http://%s:{PORT}%s' % (th, tp),
+                                   'body': ''}, **cookie)
+                meta['hosts'][h]['pages'][g] = {'redirect': (th, tp)}
+                site[th].setdefault(tp, {'body': 'target'})
+                meta['hosts'][th]['pages'].setdefault(tp, {'links': [], 'inline': [], 'nofollow': False})
+                links.append((h, g))
             nf = r.randrange(6) == 0
             if nf:
                 # links of a nofollow page point to places nothing else links to
                 links = [(h, '/nf%d/%d' % (len(meta['hosts'][h]['pages']), k)) for k in range(len(links) or 1)]
-            def href(x):
+
+            def href(x, h=h):
                 return x[1] if x[0] == h else 'http://%s:{PORT}%s' % x
-            from harness.fakes import crawl
-            site[h][p] = {'body': crawl.html(links=[href(x) for x in links], inline=[href(x) for x in inline], nofollow=nf)}
+            if p in meta['hosts'][h]['pages']:       # already defined as a redirect target of another host: keep it a leaf
+                continue
+            site[h][p] = dict({'body': crawl.html(links=[href(x) for x in links], inline=[href(x) for x in inline], nofollow=nf)}, **cookie)
             meta['hosts'][h]['pages'][p] = {'links': links, 'inline': inline, 'nofollow': nf}
-        if '/' in meta['hosts'][h]['pages'] and not meta['hosts'][h]['pages']['/']['nofollow']:
+        if '/' in meta['hosts'][h]['pages'] and not meta['hosts'][h]['pages']['/'].get('nofollow') and 'links' in meta['hosts'][h]['pages']['/']:
             # make the root link to every page of the host so that most of the site is reachable
             extra = [(h, p) for p in paths if p != '/' and not p.endswith(('.png', '.gif'))]
             pg = meta['hosts'][h]['pages']['/']
             pg['links'] = pg['links'] + extra
-            from harness.fakes import crawl
-            def href2(x):
+
+            def href2(x, h=h):
                 return x[1] if x[0] == h else 'http://%s:{PORT}%s' % x
-            site[h]['/'] = {'body': crawl.html(links=[href2(x) for x in pg['links']], inline=[href2(x) for x in pg['inline']])}
-    args = ['http://%s:{PORT}/' % h for h in hosts] + ['-r', '-l', '6', '--span-hosts', '--page-requisites', '--tries', '1',
-                                                       '--concurrent', str(conc)]
+            site[h]['/'] = dict({'body': crawl.html(links=[href2(x) for x in pg['links']], inline=[href2(x) for x in pg['inline']])}, **cookie)
+    args = ['http://%s:{PORT}/' % h for h in hosts] + ['-r', '-l', '6', '--span-hosts', '--page-requisites', '--delete-after', '--tries', str(tries)]
     if ua:
         args += ['-U', ua]
-    return {'args': args, 'site': site, 'meta': meta}
+    return {'args': args, 'site': site, 'meta': meta, 'concurrency': conc}
 
 
 def hop_site():
-    """the recorded F20 scenario: a page redirects to a URL robots.txt disallows"""
+    """the F20 scenario: a page redirects to a URL robots.txt disallows (the redirect must not be followed)"""
     from harness.fakes import crawl
     site = {'h1': {'/': {'body': crawl.html(links=['/go'])}, '/go': {'status': 302, 'location': '/secret/hop', 'body': ''},
                    '/secret/hop': {'body': 'hidden'}, '/robots.txt': {'body': 'User-agent: *\nDisallow: /secret\n', 'ctype': 'text/plain'}}}
     meta = {'hosts': {'h1': {'kind': 'rules', 'robots_body': 'User-agent: *\nDisallow: /secret\n', 'chain': ['/robots.txt'],
                              'pages': {'/': {'links': [('h1', '/go')], 'inline': [], 'nofollow': False},
                                        '/go': {'redirect': ('h1', '/secret/hop')}, '/secret/hop': {'links': [], 'inline': [], 'nofollow': False}}}},
-            'concurrency': 1, 'ua': UA_DEFAULT, 'idx': -1}
-    return {'args': ['http://h1:{PORT}/', '-r', '-l', '6', '--tries', '1'], 'site': site, 'meta': meta}
+            'concurrency': 1, 'ua': UA_DEFAULT, 'idx': -1, 'tries': 1}
+    return {'args': ['http://h1:{PORT}/', '-r', '-l', '6', '--delete-after', '--tries', '1'], 'site': site, 'meta': meta, 'concurrency': 1}
+
+
+def window_site():
+    """four start URLs of one origin, four workers, a slow robots.txt: it must be requested once"""
+    site = {'h1': {'/robots.txt': {'body': 'User-agent: *\nDisallow: /secret\n', 'ctype': 'text/plain', 'delay': 0.3},
+                   '/': {'body': 'r'}, '/a': {'body': 'a'}, '/b': {'body': 'b'}, '/secret/x': {'body': 's'}}}
+    leaf = {'links': [], 'inline': [], 'nofollow': False}
+    meta = {'hosts': {'h1': {'kind': 'rules', 'robots_body': 'User-agent: *\nDisallow: /secret\n', 'chain': ['/robots.txt'],
+                             'pages': {'/': dict(leaf), '/a': dict(leaf), '/b': dict(leaf), '/secret/x': dict(leaf)}}},
+            'concurrency': 4, 'ua': UA_DEFAULT, 'idx': -2, 'tries': 1, 'starts': [('h1', '/'), ('h1', '/a'), ('h1', '/b'), ('h1', '/secret/x')]}
+    return {'args': ['http://h1:{PORT}/', 'http://h1:{PORT}/a', 'http://h1:{PORT}/b', 'http://h1:{PORT}/secret/x', '-r', '-l', '6', '--delete-after', '--tries', '1'],
+            'site': site, 'meta': meta, 'concurrency': 4}
 
 
 def predict(meta, verdict):
     """fetch set predicted from the model: verdict(host, path) -> bool. Returns set of (host, path)."""
     fetched = set()
     seen = set()
-    queue = [(h, '/') for h in meta['hosts']]
+    queue = list(meta.get('starts') or [(h, '/') for h in meta['hosts']])
+
+    def ok(h, p):
+        return h in meta['hosts'] and meta['hosts'][h]['kind'] not in ('503', '500') and verdict(h, p)
     while queue:
-        h, p = queue.pop(0)
-        if (h, p) in seen or h not in meta['hosts']:
+        item = tuple(queue.pop(0))
+        if item in seen or item[0] not in meta['hosts']:
             continue
-        seen.add((h, p))
-        hm = meta['hosts'][h]
-        if hm['kind'] in ('503', '500'):
-            continue
-        if not verdict(h, p):
-            continue
-        fetched.add((h, p))
-        pg = hm['pages'].get(p)
-        if not pg or 'redirect' in pg:
-            continue
-        kids = list(pg['inline']) + ([] if pg['nofollow'] else list(pg['links']))
-        queue += kids
+        seen.add(item)
+        cur = item
+        for _ in range(4):
+            if not ok(*cur):
+                break
+            fetched.add(cur)
+            pg = meta['hosts'][cur[0]]['pages'].get(cur[1])
+            if pg and 'redirect' in pg:
+                cur = tuple(pg['redirect'])       # the hop is checked like an initial request
+                continue
+            if pg:
+                queue += list(pg['inline']) + ([] if pg['nofollow'] else list(pg['links']))
+            break
     return fetched
 
 
@@ -776,12 +1047,12 @@ def e2e_predicate(spec, res):
         return viol, dis
     log = [(q['host'], q['path']) for q in res['requests']]
     ua = meta['ua']
-    conc = meta['concurrency']
+    tries = meta.get('tries', 1)
     redirect_targets = {}
     for h, hm in meta['hosts'].items():
         for p, pg in hm['pages'].items():
             if 'redirect' in pg:
-                redirect_targets[pg['redirect']] = (h, p)
+                redirect_targets.setdefault(tuple(pg['redirect']), []).append((h, p))
 
     def chain_of(h):
         return [(h, c) if isinstance(c, str) else tuple(c) for c in meta['hosts'][h]['chain']]
@@ -790,7 +1061,8 @@ def e2e_predicate(spec, res):
         acq |= set(chain_of(h))
 
     def case(extra):
-        c = {'kind': 'e2e', 'spec': {'args': spec['args'], 'site': spec['site'], 'meta': meta}, 'log': log[:80]}
+        c = {'kind': 'e2e', 'spec': {'args': spec['args'], 'site': spec['site'], 'meta': meta, 'concurrency': spec.get('concurrency', 1)},
+             'log': log[:80]}
         c.update(extra)
         return c
     # (1) robots.txt obtained before any other URL of the origin; (2) no disallowed URL requested
@@ -805,11 +1077,15 @@ def e2e_predicate(spec, res):
                 if cnt == need:
                     done_at[h] = i
                     break
+    linked = set()
+    for hm in meta['hosts'].values():
+        for pg in hm['pages'].values():
+            linked |= set(tuple(x) for x in pg.get('links', []) + pg.get('inline', []))
     for i, (h, p) in enumerate(log):
         if (h, p) in acq or h not in meta['hosts']:
             continue
         hm = meta['hosts'][h]
-        is_hop = (h, p) in redirect_targets and redirect_targets[(h, p)] in log[:i]
+        is_hop = (h, p) not in linked and any(src in log[:i] for src in redirect_targets.get((h, p), []))
         if h not in done_at or done_at[h] > i:
             viol.append({'why': 'redirect-hop' if is_hop else 'requested-before-robots-obtained', 'case': case({'request': [h, p]})})
             continue
@@ -820,16 +1096,30 @@ def e2e_predicate(spec, res):
             big = len(robots_text(hm)) > 4096
             viol.append({'why': 'redirect-hop' if is_hop else 'disallowed-url-requested' + ('(robots>4KiB)' if big else ''),
                          'case': case({'request': [h, p]})})
-    # (3) not requested again once obtained
+    # (3) not requested again once obtained: exactly one acquisition per origin whose robots.txt can be obtained
+    rows_by_host = {}
+    for row in res.get('rows', []):
+        m = re.match(r'http://([^/:]+):\d+(/.*)$', row['url'])
+        if m:
+            rows_by_host.setdefault(m.group(1), []).append((m.group(2), row))
+    hop_hosts = set(t[0] for t in redirect_targets)
     for h, hm in meta['hosts'].items():
         ch = chain_of(h)
         per = len([c for c in ch if c == ch[0]])
         n = log.count(ch[0])
-        if hm['kind'] in ('503', '500'):
-            continue
         if n == 0:
             continue
-        if n % per != 0 or n // per > conc:
+        if hm['kind'] in ('503', '500'):
+            # a server error postpones: every visit of an item of this origin asks again, the item is retried `tries` times and then skipped
+            rows = rows_by_host.get(h, [])
+            for p, row in rows:
+                if row['status'] != 'skipped' or row['try_count'] != tries + 1:
+                    viol.append({'why': '5xx-not-postponed', 'case': case({'origin': h, 'row': {k: row[k] for k in ('url', 'status', 'try_count')}})})
+                    break
+            if h not in hop_hosts and n != tries * len(rows):
+                viol.append({'why': '5xx-retry-budget', 'case': case({'origin': h, 'robots_requests': n, 'rows': len(rows), 'tries': tries})})
+            continue
+        if n != per:
             viol.append({'why': 'robots-refetched', 'case': case({'origin': h, 'count': n, 'per_acquisition': per})})
     # (4) nofollow
     for h, hm in meta['hosts'].items():
@@ -841,7 +1131,6 @@ def e2e_predicate(spec, res):
     # (5) missing robots.txt allows everything: predicted set (reference verdicts) must be fetched
     pred = predict(meta, lambda h, p: ref_allowed(robots_text(meta['hosts'][h]), ua, p))
     actual = set(q for q in log if q not in acq and q[0] in meta['hosts'])
-    hops = set(t for t in redirect_targets if redirect_targets[t] in actual)
     for q in sorted(pred - actual):
         hm = meta['hosts'][q[0]]
         if hm['kind'] in ('404', '403', '204', 'loop', '200-empty'):
@@ -849,15 +1138,15 @@ def e2e_predicate(spec, res):
         else:
             dis.append({'tie': 'e2e', 'what': 'predicted fetch missing from the log', 'request': list(q), 'idx': meta['idx'],
                         'kind': hm['kind'], 'spec': {'args': spec['args'], 'site': spec['site']}, 'log': log[:60]})
-    for q in sorted(actual - pred - hops):
+    for q in sorted(actual - pred):
         if not any(v['case'].get('request') == list(q) for v in viol):
             dis.append({'tie': 'e2e', 'what': 'request not predicted by the model', 'request': list(q), 'idx': meta['idx'],
                         'spec': {'args': spec['args'], 'site': spec['site']}, 'log': log[:60]})
     return viol, dis
 
 
-def coq_e2e_case(spec):
-    """the model's verdict for every (origin, page path) of the site must equal the reference matcher's"""
+def coq_e2e_case(spec, res):
+    """the model's verdict for every (origin, page path) of the site must equal the reference matcher's; status table; 5xx budget"""
     meta = spec['meta']
     ua = meta['ua']
     items = []
@@ -868,10 +1157,21 @@ def coq_e2e_case(spec):
         items.append('(let r := parse_robots (unhex "%s") in forallb (fun q => Bool.eqb (is_allowed r (unhex "%s") (fst q)) (snd q)) [%s])'
                      % (text.encode('latin-1').hex(), ua.encode('latin-1').hex(), '; '.join(qs)))
     st = {'404': 404, '403': 403, '204': 204, '503': 503, '500': 500}
+    tries = meta.get('tries', 1)
+    rows_by_host = {}
+    for row in res.get('rows', []):
+        m = re.match(r'http://([^/:]+):\d+(/.*)$', row['url'])
+        if m:
+            rows_by_host.setdefault(m.group(1), []).append(row)
     for h, hm in sorted(meta['hosts'].items()):
         if hm['kind'] in st:
             exp = 'RAServerError' if hm['kind'] in ('503', '500') else 'RABlank'
             items.append('match status_action %d [] with %s => true | _ => false end' % (st[hm['kind']], exp))
+        if hm['kind'] in ('503', '500'):
+            for row in rows_by_host.get(h, [])[:3]:
+                items.append('(match visits_5xx %d %d {| it_status := StTodo; it_tries := 0 |} 0 with '
+                             '| ({| it_status := StSkipped; it_tries := k |}, a) => Nat.eqb k %d && Nat.eqb a %d | _ => false end)'
+                             % (tries + 3, tries, row['try_count'], tries))
     return ' && '.join(items) if items else 'true'
 
 
@@ -879,13 +1179,14 @@ def run_e2e(specs):
     from harness.fakes import crawl
 
     def one(s):
-        return crawl.run_crawl({'args': s['args'], 'site': s['site'], 'repo': REPO[0]})
-    with ThreadPoolExecutor(max_workers=12) as ex:
+        return crawl.run_crawl({'args': s['args'], 'site': s['site'], 'repo': REPO[0], 'concurrency': s.get('concurrency', 1),
+                                'pre_hooks': ['harness.fakes.c20_hooks.set_concurrency']})
+    with ThreadPoolExecutor(max_workers=6) as ex:
         return list(ex.map(one, specs))
 
 
 def tie_e2e(r, n, stats, with_coq=True):
-    specs = [hop_site()] + [gen_site(r, i) for i in range(n)]
+    specs = [hop_site(), window_site()] + [gen_site(r, i) for i in range(n)]
     results = run_e2e(specs)
     viol, dis = [], []
     nontriv = set()
@@ -901,14 +1202,18 @@ def tie_e2e(r, n, stats, with_coq=True):
         log = set((q['host'], q['path']) for q in res.get('requests', []))
         blocked = [1 for h, hm in m['hosts'].items() for p in hm['pages']
                    if not ref_allowed(robots_text(hm), m['ua'], p) and (h, p) not in log]
+        nred = [(h, p) for h, hm in m['hosts'].items() for p, pg in hm['pages'].items() if 'redirect' in pg and (h, p) in log]
+        hops_blocked = [1 for h, p in nred if tuple(m['hosts'][h]['pages'][p]['redirect']) not in log]
+        stats['e2e:redirects-followed'] = stats.get('e2e:redirects-followed', 0) + len(nred) - len(hops_blocked)
+        stats['e2e:redirect-hops-blocked'] = stats.get('e2e:redirect-hops-blocked', 0) + len(hops_blocked)
         if blocked and len(log) > 2:
             nontriv.add(m['idx'])
     if with_coq:
-        items = [coq_e2e_case(s) for s in specs]
+        items = [coq_e2e_case(s, res) for s, res in zip(specs, results)]
         failing, errors = eval_checks(items, per=40)
         dis += errors
         for idx in sorted(failing):
-            dis.append({'tie': 'e2e-verdicts', 'what': 'model verdict differs from the reference matcher on a site URL',
+            dis.append({'tie': 'e2e-verdicts', 'what': 'model verdict / status table / 5xx retry budget differs on a site',
                         'idx': specs[idx]['meta']['idx'], 'hosts': {h: hm['robots_body'] for h, hm in specs[idx]['meta']['hosts'].items()},
                         'ua': specs[idx]['meta']['ua']})
     return len(specs), nontriv, dis, viol
@@ -933,7 +1238,7 @@ def correspondence(ctx):
     with ThreadPoolExecutor(max_workers=3) as ex:
         fa = ex.submit(tie_parser, common.rng('c20-parser'), n_files, stats)
         fu = ex.submit(tie_units, common.rng('c20-units'), 80 if not ctx.thorough else 600, 150 if not ctx.thorough else 1500,
-                       100 if not ctx.thorough else 800, stats)
+                       100 if not ctx.thorough else 800, 150 if not ctx.thorough else 2000, stats)
         fb = ex.submit(tie_e2e, common.rng('c20-e2e'), n_e2e, stats)
         na, nta, da, va = fa.result()
         nu, ntu, du, vu = fu.result()
@@ -976,8 +1281,9 @@ def search(ctx, disagreements):
                 viol.append({'why': 'verdict-differs-from-reference', 'case': {
                     'kind': 'parser', 'body_hex': c['body_hex'], 'ua': q['ua_text'], 'url': q['url'], 'target': q['target']}})
                 break
-    pc, cc, sc = gen_pool_cases(r, 400), gen_checker_cases(r, 1500), gen_scraper_cases(r, 600)
-    for kind, cs, fn in (('pool', pc, pool_property), ('checker', cc, checker_property), ('scraper', sc, scraper_property)):
+    pc, cc, sc, kc = gen_pool_cases(r, 400), gen_checker_cases(r, 1500), gen_scraper_cases(r, 600), gen_conc_cases(r, 1500)
+    for kind, cs, fn in (('pool', pc, pool_property), ('checker', cc, checker_property), ('scraper', sc, scraper_property),
+                         ('conc', kc, conc_property)):
         for c, x in zip(cs, impl(kind, cs, 100)):
             why = fn(c, x)
             if why:
@@ -992,7 +1298,7 @@ def replay(ctx, data):
     why = data.get('why')
     if kind == 'e2e':
         spec = case['spec']
-        spec = {'args': spec['args'], 'site': spec['site'], 'meta': spec['meta']}
+        spec = {'args': spec['args'], 'site': spec['site'], 'meta': spec['meta'], 'concurrency': spec.get('concurrency', 1)}
         # JSON turned tuples into lists
         for hm in spec['meta']['hosts'].values():
             hm['chain'] = [c if isinstance(c, str) else tuple(c) for c in hm['chain']]
@@ -1002,6 +1308,8 @@ def replay(ctx, data):
                         pg[k] = [tuple(x) for x in pg[k]]
                 if 'redirect' in pg:
                     pg['redirect'] = tuple(pg['redirect'])
+        if spec['meta'].get('starts'):
+            spec['meta']['starts'] = [tuple(x) for x in spec['meta']['starts']]
         res = run_e2e([spec])[0]
         v, _ = e2e_predicate(spec, res)
         return any(classify(x) == classify({'why': why}) for x in v) if why else bool(v)
@@ -1011,10 +1319,10 @@ def replay(ctx, data):
         text = bytes.fromhex(case['body_hex']).decode('latin-1')
         vd = res['verdicts'][0]
         return 'allowed' in vd and ref_allowed(text, case['ua'], case['target']) != vd['allowed']
-    if kind in ('pool', 'checker', 'scraper'):
+    if kind in ('pool', 'checker', 'scraper', 'conc'):
         c = {k: v for k, v in case.items() if k != 'kind'}
         x = impl(kind, [c])[0]
-        return {'pool': pool_property, 'checker': checker_property, 'scraper': scraper_property}[kind](c, x) is not None
+        return {'pool': pool_property, 'checker': checker_property, 'scraper': scraper_property, 'conc': conc_property}[kind](c, x) is not None
     return False
 
 
